@@ -151,9 +151,28 @@ func vPool(seed int64) []vNamed {
 	nm1 := new(big.Int).Sub(vN, big.NewInt(1))
 	ks := []*big.Int{big.NewInt(1), big.NewInt(2), big.NewInt(3), nm1, new(big.Int).Sub(vN, big.NewInt(2)), new(big.Int).Rand(rng, vN), new(big.Int).Rand(rng, vN)}
 	out := []vNamed{{"O(0:1:0)", vInf(), big.NewInt(1)}, {"O(0:r:0)", vInf(), rl()}}
-	for _, k := range ks {
+	// a primitive cube root of unity: (beta*x, y) is a different point with the same y
+	beta := big.NewInt(1)
+	for b := int64(2); beta.Cmp(big.NewInt(1)) == 0; b++ {
+		beta.Exp(big.NewInt(b), new(big.Int).Div(new(big.Int).Sub(vP, big.NewInt(1)), big.NewInt(3)), vP)
+	}
+	// scalings whose Montgomery representation is sparse (e.g. agrees with that of 1 in its low limbs)
+	Rinv := new(big.Int).ModInverse(new(big.Int).Lsh(big.NewInt(1), 256), vP)
+	sparse := func(l [4]uint64) *big.Int {
+		v := new(big.Int)
+		for i := 3; i >= 0; i-- {
+			v.Lsh(v, 64)
+			v.Or(v, new(big.Int).SetUint64(l[i]))
+		}
+		return vModP(v.Mul(v, Rinv))
+	}
+	for i, k := range ks {
 		p := vMulPt(k, g)
 		out = append(out, vNamed{"[" + k.Text(16) + "]G*1", p, big.NewInt(1)}, vNamed{"[" + k.Text(16) + "]G*r", p, rl()})
+		if i < 2 {
+			out = append(out, vNamed{"(beta*x,y) of [" + k.Text(16) + "]G", vPt{x: vMul(beta, p.x), y: new(big.Int).Set(p.y)}, rl()})
+			out = append(out, vNamed{"[" + k.Text(16) + "]G*sparseZ", p, sparse([4]uint64{0, 0, 0, 1})})
+		}
 	}
 	return out
 }
@@ -249,6 +268,33 @@ func vRunCase3(t *testing.T, c vCase) (msg string) {
 					if e.IsIdentity() != pa.inf {
 						return fail("IsIdentity(" + a.name + ")")
 					}
+				}
+			}
+		}
+	case "el-scaled":
+		// a, b: projective scalings (Z values) of receiver and argument taken from a solver model
+		la, lb := vBig(c.A), vBig(c.B)
+		if la.Sign() == 0 {
+			la.SetInt64(1)
+		}
+		if lb.Sign() == 0 {
+			lb.SetInt64(1)
+		}
+		g := vG()
+		pts := []vPt{g, vAddPt(g, g), vMulPt(big.NewInt(5), g), vNeg(g)}
+		for _, pa := range pts {
+			for _, pb := range pts {
+				e, f := vElementOf(pa, la), vElementOf(pb, lb)
+				if got, ok := vPointOf(e.Add(f)); !ok || !vSame(got, vAddPt(pa, pb)) {
+					return "Add with argument scaling " + c.B + ": " + pa.String() + " + " + pb.String() + " = " + got.String()
+				}
+				e = vElementOf(pa, la)
+				if got, ok := vPointOf(e.Subtract(f)); !ok || !vSame(got, vAddPt(pa, vNeg(pb))) {
+					return "Subtract with argument scaling " + c.B + " wrong"
+				}
+				e = vElementOf(pa, la)
+				if got, ok := vPointOf(e.Double()); !ok || !vSame(got, vAddPt(pa, pa)) {
+					return "Double with scaling " + c.A + " wrong"
 				}
 			}
 		}
